@@ -10,6 +10,7 @@ pub mod c09;
 pub mod c10;
 pub mod c11;
 pub mod c12;
+pub mod c20;
 
 pub const TABLE: &[(&str, fn(&mut Ctx))] = &[
 	("C01", c01::run),
@@ -22,6 +23,7 @@ pub const TABLE: &[(&str, fn(&mut Ctx))] = &[
 	("C10", c10::run),
 	("C11", c11::run),
 	("C12", c12::run),
+	("C20", c20::run),
 ];
 
 pub fn run(ctx: &mut Ctx) -> bool {
